@@ -23,10 +23,34 @@ CONFIGS = {
 }
 
 
+def with_directed_tail(st0, ops, seed):
+    """Every second history ends with a directed tail that random drawing rarely produces: a module that is only
+    reached through imports (not named on the command line), imported as `from pkg.sub import mod` when it is a
+    submodule, possibly with `# type: ignore` on the import line, is deleted while its importer stays untouched."""
+    if seed % 2:
+        return st0, ops
+    import random
+
+    rnd = random.Random(seed)
+    st = histrun.replay_state(st0, ops, len(ops))
+    pairs = sorted((imp, dep) for imp, m in st["mods"].items() for dep in m["imports"] if dep in st["mods"] and not any(o.startswith(dep + ".") for o in st["mods"]))
+    if not pairs:
+        return st0, ops
+    pairs.sort(key=lambda p: -p[1].count("."))
+    imp, dep = pairs[0] if rnd.random() < 0.6 else rnd.choice(pairs)
+    tail = [{"op": "restyle_import", "mod": imp, "dep": dep, "style": "frompkg" if "." in dep else "import", "seed": rnd.randrange(2**30)},
+            {"op": "toggle_unlisted", "mod": dep, "seed": rnd.randrange(2**30)}]
+    if rnd.random() < 0.5:
+        tail.append({"op": "toggle_import_ignore", "mod": imp, "dep": dep, "seed": rnd.randrange(2**30)})
+    tail.append({"op": "delete_module", "mod": dep, "seed": rnd.randrange(2**30)})
+    tail.append({"op": "change_use", "mod": imp, "use": (st["mods"][imp]["uses"] or [{"id": -1}])[0]["id"], "seed": rnd.randrange(2**30)})
+    return st0, ops + tail
+
+
 def eval_history(arg):
     """Runs one history; returns list of step records (only the interesting parts)."""
     seed, nmods, nsteps, configs, truly_cold_final = arg[:5]
-    st0, ops = arg[5] if len(arg) > 5 and arg[5] else project.history(seed, nmods, nsteps)
+    st0, ops = arg[5] if len(arg) > 5 and arg[5] else with_directed_tail(*project.history(seed, nmods, nsteps), seed)
     root = mypyrun.scratch("c02")
     caches = {c: mypyrun.scratch("c02cache-" + c) for c in configs}
     recs = []
@@ -110,7 +134,7 @@ def judge(run: Run, res, configs) -> None:
             run.report(sg, case, "history seed %d step %d (%s), cache config %s: warm run differs from cold run: %s: %s" % (res["seed"], rec["step"], last, cfg, klass, detail))
 
 
-def eval_file_steps(steps, cfg):
+def eval_file_steps(steps, cfg, targets=None):
     """Hand-written histories: list of {path: text} snapshots; warm (one cache) vs cold after each."""
     root = mypyrun.scratch("c02f")
     cache = mypyrun.scratch("c02fcache")
@@ -120,11 +144,12 @@ def eval_file_steps(steps, cfg):
         proj = histrun.Project(root)
         for files in steps:
             proj.sync(files)
-            warm = histrun.run(root, proj.targets(), CONFIGS[cfg], cache)
+            tg = [t for t in (targets or proj.targets()) if t in proj.files]
+            warm = histrun.run(root, tg, CONFIGS[cfg], cache)
             cdir = mypyrun.scratch("c02fcold")
             try:
                 mypyrun.seed_for(histrun.COMMON + CONFIGS[cfg], "c02").copy_to(cdir)
-                cold = histrun.run(root, proj.targets(), CONFIGS[cfg], cdir)
+                cold = histrun.run(root, tg, CONFIGS[cfg], cdir)
             finally:
                 mypyrun.rmtree(cdir)
             out.append(histrun.compare(warm, cold))
@@ -138,7 +163,7 @@ def replay(run: Run, case: dict, origin: str | None = None) -> bool:
     before = len(run.violations)
     if "file_steps" in case:
         for cfg in case.get("configs") or list(CONFIGS):
-            for i, d in enumerate(eval_file_steps(case["file_steps"], cfg)):
+            for i, d in enumerate(eval_file_steps(case["file_steps"], cfg, case.get("targets"))):
                 run.count()
                 if d and d[0] not in ("same-line-order",):
                     run.report(case.get("signature_if_differs") or "%s|%s|hand-written" % (d[0], ",".join(d[2][:3]) if len(d) > 2 else "-"), case, "hand-written history step %d, config %s: warm differs from cold: %s %s" % (i, cfg, d[0], d[1]))
